@@ -19,6 +19,13 @@ FILES = ["vm/vm.go", "vm/vmStmt.go", "vm/vmExpr.go", "vm/vmExprFunction.go", "vm
          "core/toX.go", "parser/lexer.go", "ast/astutil/walk.go", "anko.go"]
 OUT = os.path.join(VERIF, "selftest", "sweep_results.jsonl")
 
+def ensure_gomutate():
+    """bin/ is not committed: build the mutant lister on first use"""
+    g = os.path.join(VERIF, "bin/gomutate")
+    if not os.path.exists(g) or os.path.getmtime(g) < max(os.path.getmtime(os.path.join(VERIF, "selftest/gomutate", f)) for f in ("main.go", "benign.go")):
+        subprocess.run(["go", "build", "-o", g, "."], cwd=os.path.join(VERIF, "selftest/gomutate"), env=ENV, check=True)
+    return g
+
 CHECKER = ""
 local = threading.local()
 dirs = []
@@ -72,7 +79,7 @@ def run(limit, workers, skip=0):
     shutil.copy(os.path.join(VERIF, "bin/ankocheck"), CHECKER)
     dirs.append(os.path.dirname(CHECKER))
     muts = []
-    p = subprocess.run([os.path.join(VERIF, "bin/gomutate")] + FILES, cwd=REPO, capture_output=True, text=True)
+    p = subprocess.run([ensure_gomutate()] + FILES, cwd=REPO, capture_output=True, text=True)
     for l in p.stdout.splitlines():
         muts.append(json.loads(l))
     random.Random(1).shuffle(muts)
@@ -128,14 +135,17 @@ def evaluate_benign(m):
     finally:
         open(path, "wb").write(src)
 
-def run_benign(limit, workers, seed, files=None, tag=""):
+def run_benign(limit, workers, seed, files=None, tag="", structural=False):
     global CHECKER
     out_path = os.path.join(VERIF, "selftest", "benign_results%s.jsonl" % tag)
     CHECKER = os.path.join(tempfile.mkdtemp(prefix="ankosweepbin."), "ankocheck")
     shutil.copy(os.path.join(VERIF, "bin/ankocheck"), CHECKER)
     dirs.append(os.path.dirname(CHECKER))
-    p = subprocess.run([os.path.join(VERIF, "bin/gomutate"), "-benign"] + (files or FILES), cwd=REPO, capture_output=True, text=True)
+    p = subprocess.run([ensure_gomutate(), "-benign"] + (files or FILES), cwd=REPO, capture_output=True, text=True)
     muts = [json.loads(l) for l in p.stdout.splitlines()]
+    if structural:   # only the rewrites that change the control-flow graph (the others leave the SSA form almost untouched)
+        plain = ("wrap statement", "swap comparison", "rename local", "++ as", "-- as")
+        muts = [m for m in muts if not m["kind"].startswith(plain)]
     random.Random(seed).shuffle(muts)
     if limit:
         muts = muts[:limit]
@@ -222,7 +232,7 @@ if __name__ == "__main__":
             else: a = a[1:]
         run(limit, workers, skip)
     elif len(sys.argv) > 1 and sys.argv[1] == "benign":
-        limit, workers, seed, files, tag = 0, 10, 1, None, ""
+        limit, workers, seed, files, tag, structural = 0, 10, 1, None, "", False
         a = sys.argv[2:]
         while a:
             if a[0] == "--limit": limit = int(a[1]); a = a[2:]
@@ -230,8 +240,9 @@ if __name__ == "__main__":
             elif a[0] == "--seed": seed = int(a[1]); a = a[2:]
             elif a[0] == "--files": files = a[1].split(","); a = a[2:]
             elif a[0] == "--tag": tag = "_" + a[1]; a = a[2:]
+            elif a[0] == "--structural": structural = True; a = a[1:]
             else: a = a[1:]
-        run_benign(limit, workers, seed, files, tag)
+        run_benign(limit, workers, seed, files, tag, structural)
     elif len(sys.argv) > 1 and sys.argv[1] == "benign-report":
         report_benign("_" + sys.argv[2] if len(sys.argv) > 2 else "")
     elif len(sys.argv) > 1 and sys.argv[1] == "recheck":
